@@ -8,8 +8,8 @@ CONSTANTS
   Addrs <- TAddrs
   Seconds = {"none", "distinct", "dup", "inherited"}
   Bad = {0, 1, 2, 3, 4, 5, 6}
-  Singles = {"none", "type", "enum"}
-  EvalKinds = {"none", "scalar", "ptr", "arr", "struct", "missing"}
+  Singles = {"none", "type", "enum", "opaque"}
+  EvalKinds = {"none", "scalar", "ptr", "arr", "struct", "missing", "two"}
   Ptrs = {4, 8}
 INVARIANTS Replay
 CHECK_DEADLOCK FALSE
